@@ -263,14 +263,12 @@ Definition start_found (c : cfg) (s : st) (q : request) (k : key) (o : nat) (ob 
     | Err e => (s, Err e, cks)
     | Panic e => (s, Panic e, cks)
     | Ok _ =>
-      let '(s, fr) := if isref then follow (S (N.to_nat (supply s))) s o else (s, Ok o) in
+      let '(s, fr) := if isref then follow (S (N.to_nat (supply s))) s o k else (s, Ok (o, k)) in
       match fr with
       | Err e => (s, Err e, cks)
       | Panic e => (s, Panic e, cks)
-      | Ok o' =>
-        let cks := if isref then
-                     match hget s o' with Some ob' => cks ++ [CkLive (o_id ob')] | None => cks end
-                   else cks in
+      | Ok (o', lk) =>
+        let cks := if isref then cks ++ [CkLive lk] else cks in
         let s := hupd s o' (upd_req s q) in
         (s, Ok (Some o'), cks)
       end
@@ -343,16 +341,15 @@ Lemma sf_ref c s q k o ob cks t :
   rec_valid c (now s) q (o_rec ob) = true -> r_ref (o_rec ob) = Some t ->
   (sat_add (c_idexpiry c) (c_grace c) <=? since (r_created (o_rec ob)) (now s))%Z = false ->
   start_found c s q k o ob cks =
-  (let '(s1, fr) := follow (S (N.to_nat (supply s))) s o in
+  (let '(s1, fr) := follow (S (N.to_nat (supply s))) s o k in
    match fr with
    | Err e => (s1, Err e, cks)
    | Panic e => (s1, Panic e, cks)
-   | Ok o' => (hupd s1 o' (upd_req s1 q), Ok (Some o'),
-               match hget s1 o' with Some ob' => cks ++ [CkLive (o_id ob')] | None => cks end)
+   | Ok (o', lk) => (hupd s1 o' (upd_req s1 q), Ok (Some o'), cks ++ [CkLive lk])
    end).
 Proof.
   intros Hv Hr Hb. unfold start_found. cbv zeta. rewrite Hv, Hr, Hb. cbn [negb andb].
-  destruct (follow _ s o) as [s1 [o'| |]]; reflexivity.
+  destruct (follow _ s o k) as [s1 [[o' lk']| |]]; reflexivity.
 Qed.
 
 (* ---------------------------------------------- invariant through Start *)
@@ -365,11 +362,11 @@ Proof.
   - exists ob. split; assumption.
 Qed.
 
-Lemma follow_inv b base D : forall fuel s o, inv b base NX D s -> hok b D s o ->
-  exists s' r, follow fuel s o = (s', r) /\ inv b base NX D s' /\
-    match r with Ok o' => hok b D s' o' | Err _ => True | Panic _ => False end.
+Lemma follow_inv b base D : forall fuel s o lk, inv b base NX D s -> hok b D s o ->
+  exists s' r, follow fuel s o lk = (s', r) /\ inv b base NX D s' /\
+    match r with Ok (o', _) => hok b D s' o' | Err _ => True | Panic _ => False end.
 Proof.
-  induction fuel as [|f IH]; intros s o I [Hbo [ob [Ho HnD]]]; cbn [follow]; rewrite Ho.
+  induction fuel as [|f IH]; intros s o lk I [Hbo [ob [Ho HnD]]]; cbn [follow]; rewrite Ho.
   - destruct (r_ref (o_rec ob)); eexists; eexists; (split; [reflexivity|]); (split; [exact I|]);
       [exact Logic.I | split; [exact Hbo | exists ob; split; assumption]].
   - destruct (r_ref (o_rec ob)) as [t|].
@@ -379,6 +376,24 @@ Proof.
         split; [exact Hbo' | exists ob'; split; assumption].
       * eexists; eexists; (split; [reflexivity|]); split; [exact I1 | exact Logic.I].
     + eexists; eexists; (split; [reflexivity|]); split; [exact I | split; [exact Hbo | exists ob; split; assumption]].
+Qed.
+
+(* The last key followed is the ID of the object reached: the cache maps every
+   key to an object with that ID (i_cok with NX), and a loaded object is built
+   with the key it was loaded under. *)
+Lemma follow_key b base D : forall fuel s o lk s' o' lk', inv b base NX D s ->
+  (exists ob, hget s o = Some ob /\ o_id ob = lk) ->
+  follow fuel s o lk = (s', Ok (o', lk')) ->
+  exists ob', hget s' o' = Some ob' /\ o_id ob' = lk'.
+Proof.
+  induction fuel as [|f IH]; intros s o lk s' o' lk' I [ob [Ho Hid]]; cbn [follow]; rewrite Ho.
+  - destruct (r_ref (o_rec ob)); [discriminate|]. intro H. injection H as <- <- <-. exists ob. auto.
+  - destruct (r_ref (o_rec ob)) as [t|].
+    + destruct (cache_get_inv _ _ _ _ _ t I) as (s1 & r & E & I1 & Hr). rewrite E.
+      destruct r as [o1|]; [|discriminate].
+      destruct Hr as [_ [ob1 (Ho1 & [Hid1|[]] & _)]]. apply (IH s1 o1 t s' o' lk' I1).
+      exists ob1. auto.
+    + intro H. injection H as <- <- <-. exists ob. auto.
 Qed.
 
 Definition res_ok (b : nat) (D : key -> Prop) (s : st) (res : result (option nat)) : Prop :=
@@ -394,10 +409,10 @@ Proof.
 Qed.
 
 Lemma start_found_inv b base D c s q k o ob cks :
-  inv b base NX D s -> hget s o = Some ob -> b <= o -> ~ D (o_id ob) -> cks_ok D cks ->
+  inv b base NX D s -> hget s o = Some ob -> o_id ob = k -> b <= o -> ~ D (o_id ob) -> cks_ok D cks ->
   exists s' res cks', start_found c s q k o ob cks = (s', res, cks') /\ inv b base NX D s' /\ res_ok b D s' res /\ cks_ok D cks'.
 Proof.
-  intros I Ho Hbo HnD Hck. assert (F : ffnd s) by (eapply inv_ffnd; exact I).
+  intros I Ho Hidk Hbo HnD Hck. assert (F : ffnd s) by (eapply inv_ffnd; exact I).
   assert (Hp : plan s = []) by apply F. pose proof (inv_fresh_nD _ _ _ _ _ I) as Hn.
   destruct (rec_valid c (now s) q (o_rec ob)) eqn:Hv.
   - destruct (r_ref (o_rec ob)) as [t|] eqn:Hr.
@@ -406,12 +421,14 @@ Proof.
       * rewrite sf_backstop; [| exact Hp | exact Hv | unfold isref; rewrite Hr; reflexivity | exact Hb].
         do 3 eexists. split; [reflexivity|]. split; [apply inv_cache_delete; exact I|]. split; [exact Logic.I | exact Hck].
       * rewrite (sf_ref _ _ _ _ _ _ _ t Hv Hr Hb).
-        destruct (follow_inv b base D (S (N.to_nat (supply s))) s o I) as (s1 & fr & E & I1 & Hfr).
+        destruct (follow_inv b base D (S (N.to_nat (supply s))) s o k I) as (s1 & fr & E & I1 & Hfr).
         { split; [exact Hbo | exists ob; split; assumption]. }
-        rewrite E. destruct fr as [o'|e|e]; [|do 3 eexists; split; [reflexivity|]; split; [exact I1|]; split; [exact Logic.I | exact Hck] | contradiction].
+        rewrite E. destruct fr as [[o' lk']|e|e]; [|do 3 eexists; split; [reflexivity|]; split; [exact I1|]; split; [exact Logic.I | exact Hck] | contradiction].
         do 3 eexists. split; [reflexivity|]. split; [apply inv_hupd; [exact I1 | reflexivity]|].
         split; [apply hok_hupd; exact Hfr|].
-        destruct Hfr as [_ [ob' [Ho' HnD']]]. rewrite Ho'. auto with cks.
+        destruct (follow_key b base D _ _ _ _ _ _ _ I (ex_intro _ ob (conj Ho Hidk)) E) as [ob2 [Ho2 Hid2]].
+        destruct Hfr as [_ [ob' [Ho' HnD']]]. assert (ob2 = ob') by congruence. subst ob2.
+        rewrite Hid2 in HnD'. auto with cks.
     + destruct (c_idexpiry c <=? since (r_created (o_rec ob)) (now s))%Z eqn:Ha.
       * rewrite (sf_rotate _ _ _ _ _ _ _ F Ho Hv Hr Ha). do 3 eexists. split; [reflexivity|]. split; [|split].
         -- apply inv_hupd; [apply regen_inv; assumption | reflexivity].
@@ -439,7 +456,7 @@ Proof.
   intro I. rewrite start_eq. destruct (q_cookie q) as [|k|n]; try (apply start_none_inv; [exact I | apply cks_ok_nil]).
   destruct (cache_get_inv _ _ _ _ _ k I) as (s1 & r & E & I1 & Hr). rewrite E.
   destruct r as [o|]; [|apply start_none_inv; [exact I1 | apply cks_ok_del]].
-  destruct Hr as [Hbo [ob (Ho & _ & HnD & _)]]. rewrite Ho.
+  destruct Hr as [Hbo [ob (Ho & [Hidk|[]] & HnD & _)]]. rewrite Ho.
   apply start_found_inv; try assumption. apply cks_ok_nil.
 Qed.
 
